@@ -460,7 +460,8 @@ def d_bounded_copy(f, s, R, db):
         return None
     t = s['term']
     rels = G.relations(f, R, s['block'])
-    le = [r for r in rels if r[0] in ('le',) and common.is_len_of(r[1]) and common.is_len_of(r[2])]
+    # len(b) <= len(buf), or the stronger len(b) < len(buf) (which loses valid reads — that is R17.9's business — but cannot panic)
+    le = [r for r in rels if r[0] in ('le', 'lt') and common.is_len_of(r[1]) and common.is_len_of(r[2])]
     if s['kind'] == 'call:slice-index' and le:
         return 'guarded: b.len() <= buf.len() dominates buf[..b.len()]'
     if s['kind'] == 'call:copy_from_slice':
@@ -632,7 +633,73 @@ def r178(db, ctx):
     ctx.floor('R17.8', n, 2, 'calls of parameterised core siblings (log_odds, two alphabet arms)')
 
 
+def r179(db, ctx):
+    ctx.rule('R17.9', 'file objects are read faithfully: PyFileRead::read asks fh.read for buf.len() bytes, copies the returned bytes b into buf[..b.len()], '
+                      'returns Ok(b.len()), and refuses an answer only when b.len() > buf.len() (a read that fills the buffer exactly is the normal case '
+                      'for any file larger than the BufReader buffer)')
+    gs = [g for g in db.fns.values() if 'pyfile::PyFileRead as std::io::Read>::read::{closure' in g.path and not g.promoted_of]
+    if len(gs) != 1:
+        ctx.fail('R17.9', 'lightmotif_py::pyfile::PyFileRead::read', 'anchor', f'reason=anchor-missing: {len(gs)} closure bodies of PyFileRead::read')
+        return
+    g = gs[0]
+    R = X.Rec(g)
+    copies = [(bi, t) for bi, t in g.calls() if (g.callee_short(t) or '').endswith('copy_from_slice')]
+    if len(copies) != 1:
+        ctx.fail('R17.9', g, 'copy into the caller buffer', f'reason=unrecognised-shape: {len(copies)} copy_from_slice calls')
+        return
+    bi, t = copies[0]
+    dst, src = [norm(R.at(bi).operand(a_)) for a_ in t['args']]
+    mm = m(('call~', ('::index_mut',), ('$buf', ('agg', '$adt', ('$n',)))), dst)
+    by_get = False
+    if mm is None:
+        # `match buf.get_mut(..n) { None => Err(..), Some(dst) => .. }`: None exactly when n > buf.len()
+        mm = m(('fld', ('down', ('call~', ('slice::get_mut',), ('$buf', ('agg', '$adt', ('$n',)))), 'Some'), '0'), dst)
+        by_get = mm is not None
+    probs = []
+    if mm is None or not (isinstance(mm['$adt'], tuple) and len(mm['$adt']) > 2 and mm['$adt'][2] == 'RangeTo'):
+        ctx.fail('R17.9', g, 'copy into the caller buffer', f'reason=unrecognised-shape: destination {X.show(dst, 100)} is not buf[..n]', span=t['span'])
+        return
+    buf, n_ = mm['$buf'], norm(mm['$n'])
+    len_of = lambda e_, x_: common.is_len_of(e_) and X.canon(norm(e_)[2][0] if norm(e_)[0] == 'call' else norm(e_)[1]) == X.canon(x_)
+    if not len_of(n_, src):
+        probs.append(f'the destination is buf[..{X.show(n_, 40)}], not buf[..b.len()] for the copied bytes b')
+    # the only test between the answer and the copy: !(len(b) > len(buf))
+    rels = [r for r in G.relations(g, R, bi) if r[0] in ('le', 'lt', 'ge', 'gt', 'eq', 'ne') and len(r) > 2 and
+            ((len_of(r[1], src) and len_of(r[2], buf)) or (len_of(r[2], src) and len_of(r[1], buf)))]
+    exact = [r for r in rels if (r[0] == 'le' and len_of(r[1], src)) or (r[0] == 'ge' and len_of(r[1], buf))]
+    stronger = [r for r in rels if (r[0] == 'lt' and len_of(r[1], src)) or (r[0] == 'gt' and len_of(r[1], buf))]
+    if not exact and not stronger and not by_get:
+        probs.append('the copy is not guarded by b.len() <= buf.len()')
+    if len(rels) != len(exact):
+        other = [r for r in rels if r not in exact][0]
+        probs.append(f'the answer is also refused unless b.len() {other[0]} buf.len() holds (as written: {X.show(norm(other[1]), 40)} {other[0]} {X.show(norm(other[2]), 40)}): '
+                     'a read that returns exactly the number of bytes asked for is a valid answer and is turned into an I/O error')
+    # Ok(len(b)) after the copy
+    oks = []
+    for b2, blk in enumerate(g.blocks):
+        for st in blk['stmts']:
+            if st['k'] == 'assign' and st['p']['l'] == 0 and not st['p']['pr'] and st['rv']['k'] == 'agg' and st['rv'].get('variant') == 'Ok' and g.dominates(bi, b2):
+                oks.append(norm(R.at(b2).operand(st['rv']['ops'][0])))
+    if len(oks) != 1 or not len_of(oks[0], src):
+        probs.append(f'the value returned after the copy is {[X.show(o, 40) for o in oks]}, not Ok(b.len())')
+    # the request: (buf.len(),)
+    req = False
+    for b2, t2 in g.calls():
+        if (g.callee_short(t2) or '').endswith('call_method1'):
+            for a_ in t2['args']:
+                e_ = norm(R.at(b2).operand(a_))
+                if e_[0] == 'agg' and len(e_[2]) == 1 and len_of(e_[2][0], buf):
+                    req = True
+    if not req:
+        probs.append('fh.read is not called with (buf.len(),)')
+    if probs:
+        ctx.fail('R17.9', g, 'transport of a Python file object', '; '.join(probs), span=t['span'])
+    else:
+        ctx.ok('R17.9', g, 'fh.read(buf.len()) -> b; refused iff b.len() > buf.len(); buf[..b.len()] = b; Ok(b.len())', ['exact guard', 'copy length = answer length'])
+
+
 def run(db, ctx):
+    r179(db, ctx)
     r171(db, ctx)
     r172(db, ctx)
     r173(db, ctx)
